@@ -287,6 +287,9 @@ func pkgOfType(T types.Type) *types.Package {
 // invariants of all objects it wrote at its exits and of all objects it hands to a callee). Objects this
 // function itself has written to are excluded: their invariant may be broken right now.
 func (ex *Exec) reassumeRootInvs(st *State) {
+	if os.Getenv("GOVC_NO_REASSUME") != "" {
+		return
+	}
 	rf := ex.rootFrame
 	if rf == nil || ex.specMode != 0 || ex.invDepth > 0 || (rf.ct != nil && rf.ct.NoInv) {
 		return
@@ -468,6 +471,11 @@ func (ex *Exec) finishRoot(fr *Frame, pre *State) {
 	for _, cs := range ct.CallSites {
 		if ex.callSiteHits[cs.Label] == 0 && !ex.dry {
 			ex.errors = append(ex.errors, fmt.Sprintf("%s: call-site clause %s matched no call of %s", cs.Line, cs.Label, cs.Callee))
+		}
+	}
+	for _, cs := range ct.Cuts {
+		if ex.callSiteHits["cut:"+cs.Label] == 0 && !ex.dry {
+			ex.errors = append(ex.errors, fmt.Sprintf("%s: proof cut %s matched no call of %s", cs.Line, cs.Label, cs.Callee))
 		}
 	}
 	for _, c := range ct.Ensures {
